@@ -253,7 +253,7 @@ func init() {
 		Rule: "reference-model monitor: generated programs run through bcl.Interpret and through an independent tree-walking evaluator; printed lines, " +
 			"field values incl. Go dynamic type (float bit-exact), runtime-error class and line:column compared. Fixed list: every operator x operand-kind cell over a 29-value pool " +
 			"(via literal, variable and field) and all ordered operator triples; then random typed expression trees (depth <= 5, hostile literal spellings, redundant parentheses, assignments in operands). " +
-			"distinct = hash of source text; non-trivial = reference verdict specified (not in a DESIGN §5.3 zone) and >= 1 operator executed",
+			"distinct = hash of source text; non-trivial = reference verdict specified (not in a DESIGN §5.3 zone) and >= 1 operator executed Every call gets a private copy of the source that is overwritten as soon as the call returns (results must not alias the caller's buffer).",
 		Assumptions:   []string{"DESIGN §5.4 is the language definition; §5.3 zones give no verdict", "fmt and strconv of the Go standard library format/parse numbers as documented"},
 		MinNontrivial: 1000,
 		Run: func(c *core.Ctx) {
@@ -367,7 +367,7 @@ func init() {
 		Rule: "reference-model monitor on scope-centred programs: 1-14 toplevel statements, blocks nested to 5, names drawn from a pool of 4 so that shadowing, re-declaration, " +
 			"'var x = x+1', variable/field name reuse and embedded assignments are frequent; 6% of programs carry an injected static error (duplicate declaration, undefined name at toplevel). " +
 			"The reference has an environment chain and no slots. Compared: compile outcome and position of the first diagnostic, output, blocks, runtime-error class and line:column. " +
-			"distinct = hash of source; non-trivial = specified verdict and >= 1 declaration executed or a static error predicted",
+			"distinct = hash of source; non-trivial = specified verdict and >= 1 declaration executed or a static error predicted Also: through the VM hook, the operand-stack depth right after every executed print must equal the number of variables the reference has alive there; identifiers of 63..256 bytes and names starting with '_'; 127..300 filler variables in front of 1 in 25 programs (more than 128 / 240 live locals).",
 		Assumptions:   []string{"DESIGN §5.4 scoping rules are the language definition"},
 		MinNontrivial: 1000,
 		Run: func(c *core.Ctx) {
@@ -413,7 +413,7 @@ func init() {
 		Rule: "reference-model monitor on block-centred programs: toplevel and nested blocks (depth <= 4), repeated types and names, names needing escapes, fields re-assigned, " +
 			"fields named like children / variables / TYPE / NAME, duplicate child keys, runtime errors after k completed blocks; deep comparison of []Block " +
 			"(count, order, Type, Name, exact key set, values with Go dynamic type, children under type / type.name), of output and of the error. " +
-			"distinct = hash of source; non-trivial = specified verdict and >= 1 block opened",
+			"distinct = hash of source; non-trivial = specified verdict and >= 1 block opened Also: a third of the programs contain bind statements (the result list must not be disturbed); chains of blocks nested 1..16 deep; block names and strings spelled like numbers, like TYPE / NAME, ending in a dot; long identifiers.",
 		Assumptions:   []string{"DESIGN §5.4 block rules are the language definition"},
 		MinNontrivial: 1000,
 		Run: func(c *core.Ctx) {
@@ -617,7 +617,7 @@ func init() {
 		Level: "exploration",
 		Rule: "reference-model monitor: fixed product selector {none,1,first,last,all} x target {struct,slice} x 0-4 candidate blocks x other-type blocks before/between x 0-2 candidates defined after the first bind x 1-3 bind statements " +
 			"(all cases), then random block programs with bind statements anywhere (also inside blocks). Compared: Binding kind, blocks and order; warnings (count, line:column) on the log writer; runtime-error class and position. " +
-			"distinct = hash of source; non-trivial = specified verdict and >= 1 bind executed",
+			"distinct = hash of source; non-trivial = specified verdict and >= 1 bind executed Also: binds inside block bodies; unknown selectors (01 001 0x1 1.0 2 \"1\" one First ...) and unknown targets as compile errors at that token; block types spelled like selector / target words or differing only in case; results with 200..1000 toplevel blocks and binds in between; a failing log writer must not make a repeated bind fail.",
 		Assumptions:   []string{"DESIGN §5.4 bind rules are the language definition"},
 		MinNontrivial: 1000,
 		Run: func(c *core.Ctx) {
